@@ -8,12 +8,13 @@
              codes[i] = 0 val, 1 err, 2 empty, 4 hang, 5 skipped, 10 + j panic with signature sigs[j + 1].
    "Digest"  compact, no per-input codes: counts = <<val, err, empty, panic, hang, skipped>> over all 256^free
              extensions of `in`; sigs = panic signatures with their number of occurrences.
-   VERDICT (property): no panic inside the library, no hang.  Lines
-     <<"MISMATCH", l, h, "PANIC" | "HANG", class, fn, kind, count, first>>
+   VERDICT (property): no panic inside the library, no hang.  Lines (kept short: TLC wraps long tuples)
+     <<"MISMATCH", l, "PANIC" | "HANG", class, count, first>>
    class = the recorded finding class when the input falls in the recorded failing set AND the panic is the
-   recorded one (frame + kind), else "".  INFORMATION: <<"MISMATCH", l, h, "NOTE", spec class, observed class, "", count, first>>
-   when the observed result class differs from the specification's; "INFO" panics of helpers outside the
-   property's list; "BAD" malformed observation (infra). *)
+   recorded one (frame + kind), else "";  first = first offending element of a chunk, or the signature index of a
+   digest (the orchestrator reads helper, frame and panic text from event l).
+   INFORMATION: <<"MISMATCH", l, "NOTE", "spec>observed", count, first>> when the observed result class differs
+   from the specification's; "INFO" panics of helpers outside the property's list; "BAD" malformed observation (infra). *)
 EXTENDS Helpers, TLC, Json
 VARIABLES l
 TraceLog == ndJsonDeserialize("trace.ndjson")
@@ -44,15 +45,15 @@ ImplLadn(b, off) ==
 KnownPanic(h, inp, fn, kind) ==
   LET n == Len(inp) IN
   CASE h = "UESecurityCapabilityToByteArray" /\ n = 3 /\ fn = "nasConvert.UESecurityCapabilityToByteArray" /\ kind = IdxKind
-         -> "len-3-index-out-of-range"
-    [] h = "UpuAckToModels" /\ n = 0 /\ fn = "nasConvert.UpuAckToModels" /\ kind = IdxKind -> "empty-index-out-of-range"
-    [] h = "DNN.GetDNN" /\ n = 0 /\ fn = "nasType.rfc1035tofqdn" /\ kind = SliceNegKind -> "empty-slice-bounds"
-    [] h = "LadnToModels" /\ n >= 2 /\ fn = "nasConvert.LadnToModels" /\ kind \in SliceKinds -> "length-octet-past-end-slice-bounds"
-    [] h \in GetterNames /\ n < GetterShort(h) /\ fn \in GetterFns /\ kind \in OutOfRangeKinds -> "buffer-shorter-than-layout"
+         -> "seccap-len3"
+    [] h = "UpuAckToModels" /\ n = 0 /\ fn = "nasConvert.UpuAckToModels" /\ kind = IdxKind -> "upuack-empty"
+    [] h = "DNN.GetDNN" /\ n = 0 /\ fn = "nasType.rfc1035tofqdn" /\ kind = SliceNegKind -> "dnn-empty"
+    [] h = "LadnToModels" /\ n >= 2 /\ fn = "nasConvert.LadnToModels" /\ kind \in SliceKinds -> "ladn-past-end"
+    [] h \in GetterNames /\ n < GetterShort(h) /\ fn \in GetterFns /\ kind \in OutOfRangeKinds -> "short-buffer"
     [] h \in {"AmfIdToNasWithError", "AmfIdToNas"} /\ AllHex(inp) /\ n \in {0, 2, 4}
-         /\ fn = "nasConvert.AmfIdToNasWithError" /\ kind = IdxKind -> "hex-under-3-octets-index-out-of-range"
+         /\ fn = "nasConvert.AmfIdToNasWithError" /\ kind = IdxKind -> "amfid-short-hex"
     [] OTHER -> ""
-KnownHang(h, inp) == IF h = "LadnToModels" /\ Len(inp) >= 2 /\ ImplLadn(inp, 1) = "hang" THEN "zero-length-octet-hang" ELSE ""
+KnownHang(h, inp) == IF h = "LadnToModels" /\ Len(inp) >= 2 /\ ImplLadn(inp, 1) = "hang" THEN "ladn-zero-len-hang" ELSE ""
 
 SpecClass(e, inp) == IF e.text THEN TextClass(e.h, inp) ELSE ByteClass(e.h, inp)
 CodeOf(c) == CASE c = "val" -> 0 [] c = "err" -> 1 [] c = "empty" -> 2
@@ -64,58 +65,59 @@ NElems(e) == IF e.free = 1 THEN K(e) ELSE K(e) * K(e)
 Elem(e, i) == e.in \o (IF e.free = 1 THEN <<Sym(e, i)>> ELSE <<Sym(e, i \div K(e)), Sym(e, i % K(e))>>)
 PanicKind(e) == IF e.h \in InfoHelpers THEN "INFO" ELSE "PANIC"
 
-CallReport(e) ==
-  CASE e.cls \in Classes ->
-         LET s == SpecClass(e, e.in) IN
-         IF s = e.cls THEN TRUE ELSE PrintT(<<"MISMATCH", l, e.h, "NOTE", s, e.cls, "", 1, 0>>)
-    [] e.cls = "panic" -> PrintT(<<"MISMATCH", l, e.h, PanicKind(e), KnownPanic(e.h, e.in, e.fn, e.kind), e.fn, e.kind, 1, 0>>)
-    [] e.cls = "hang" -> PrintT(<<"MISMATCH", l, e.h, "HANG", KnownHang(e.h, e.in), "", "", 1, 0>>)
-    [] e.cls = "skipped" -> IF KnownHang(e.h, e.in) # "" THEN TRUE ELSE PrintT(<<"MISMATCH", l, e.h, "BAD", "skip outside the recorded hang class", "", "", 1, 0>>)
-    [] OTHER -> PrintT(<<"MISMATCH", l, e.h, "BAD", "unknown class", "", "", 1, 0>>)
+\* Each report is a SET of lines, computed as an ordinary expression (TLC caches LET definitions there, not
+\* inside an action) and printed by the action.
+M(kind, cls, cnt, first) == <<"MISMATCH", l, kind, cls, cnt, first>>
 
-ChunkReport(e) ==
+CallLines(e) ==
+  CASE e.cls \in Classes ->
+         LET s == SpecClass(e, e.in) IN IF s = e.cls THEN {} ELSE {M("NOTE", s \o ">" \o e.cls, 1, 0)}
+    [] e.cls = "panic" -> {M(PanicKind(e), KnownPanic(e.h, e.in, e.fn, e.kind), 1, 0)}
+    [] e.cls = "hang" -> {M("HANG", KnownHang(e.h, e.in), 1, 0)}
+    [] e.cls = "skipped" -> IF KnownHang(e.h, e.in) # "" THEN {} ELSE {M("BAD", "bad skip", 1, 0)}
+    [] OTHER -> {M("BAD", "unknown class", 1, 0)}
+
+\* per element: <<index, observed code, specification's class code, finding class of a panic / hang>>
+ChunkLines(e) ==
   LET N == NElems(e)
-      idx == 0..(N - 1)
-      spec == SubSeq([i \in 1..N |-> CodeOf(SpecClass(e, Elem(e, i - 1)))], 1, N)      \* forced once
-      pan == {i \in idx : e.codes[i + 1] >= 10}
-      pcl == {<<KnownPanic(e.h, Elem(e, i), e.sigs[e.codes[i + 1] - 9].fn, e.sigs[e.codes[i + 1] - 9].kind), e.codes[i + 1] - 9>> : i \in pan}
-      hang == {i \in idx : e.codes[i + 1] = 4}
-      hcl == {KnownHang(e.h, Elem(e, i)) : i \in hang}
-      skip == {i \in idx : e.codes[i + 1] = 5}
-      div == {<<spec[i + 1], e.codes[i + 1]>> : i \in {j \in idx : e.codes[j + 1] \in 0..2 /\ e.codes[j + 1] # spec[j + 1]}}
-  IN /\ (IF Len(e.codes) = N THEN TRUE ELSE PrintT(<<"MISMATCH", l, e.h, "BAD", "chunk size", "", "", 1, 0>>))
-     /\ \A g \in pcl :
-          LET S == {i \in pan : e.codes[i + 1] - 9 = g[2] /\ KnownPanic(e.h, Elem(e, i), e.sigs[g[2]].fn, e.sigs[g[2]].kind) = g[1]} IN
-          PrintT(<<"MISMATCH", l, e.h, PanicKind(e), g[1], e.sigs[g[2]].fn, e.sigs[g[2]].kind, Cardinality(S), SetMin(S)>>)
-     /\ \A c \in hcl :
-          LET S == {i \in hang : KnownHang(e.h, Elem(e, i)) = c} IN
-          PrintT(<<"MISMATCH", l, e.h, "HANG", c, "", "", Cardinality(S), SetMin(S)>>)
-     /\ \A i \in skip : IF KnownHang(e.h, Elem(e, i)) # "" THEN TRUE
-                        ELSE PrintT(<<"MISMATCH", l, e.h, "BAD", "skip outside the recorded hang class", "", "", 1, i>>)
-     /\ \A d \in div :
-          LET S == {i \in idx : e.codes[i + 1] = d[2] /\ spec[i + 1] = d[1]} IN
-          PrintT(<<"MISMATCH", l, e.h, "NOTE", NameOf(d[1]), NameOf(d[2]), "", Cardinality(S), SetMin(S)>>)
+      rows == {<<i, e.codes[i + 1],
+                 CodeOf(SpecClass(e, Elem(e, i))),
+                 IF e.codes[i + 1] >= 10 THEN KnownPanic(e.h, Elem(e, i), e.sigs[e.codes[i + 1] - 9].fn, e.sigs[e.codes[i + 1] - 9].kind)
+                 ELSE IF e.codes[i + 1] \in {4, 5} THEN KnownHang(e.h, Elem(e, i)) ELSE "">> : i \in 0..(N - 1)}
+      pan == {r \in rows : r[2] >= 10}
+      hang == {r \in rows : r[2] = 4}
+      badskip == {r \in rows : r[2] = 5 /\ r[4] = ""}
+      div == {r \in rows : r[2] \in 0..2 /\ r[2] # r[3]}
+      First(S) == SetMin({r[1] : r \in S})
+  IN (IF Len(e.codes) = N THEN {} ELSE {M("BAD", "chunk size", 1, 0)})
+     \cup {M(PanicKind(e), g[1], Cardinality({r \in pan : r[4] = g[1] /\ r[2] = g[2]}), First({r \in pan : r[4] = g[1] /\ r[2] = g[2]}))
+            : g \in {<<r[4], r[2]>> : r \in pan}}
+     \cup {M("HANG", c, Cardinality({r \in hang : r[4] = c}), First({r \in hang : r[4] = c})) : c \in {r[4] : r \in hang}}
+     \cup {M("BAD", "bad skip", 1, r[1]) : r \in badskip}
+     \cup {M("NOTE", NameOf(d[1]) \o ">" \o NameOf(d[2]), Cardinality({r \in div : r[3] = d[1] /\ r[2] = d[2]}),
+              First({r \in div : r[3] = d[1] /\ r[2] = d[2]})) : d \in {<<r[3], r[2]>> : r \in div}}
 
 RECURSIVE SumSeq(_, _)
 SumSeq(s, i) == IF i > Len(s) THEN 0 ELSE s[i] + SumSeq(s, i + 1)
 Pow256(f) == CASE f = 1 -> 256 [] f = 2 -> 65536 [] f = 3 -> 16777216
-DigestReport(e) ==
+DigestLines(e) ==
   LET n == Len(e.in) + e.free
       dummy == [i \in 1..n |-> 0]
-  IN /\ (IF SumSeq(e.counts, 1) = Pow256(e.free) /\ ~e.text THEN TRUE ELSE PrintT(<<"MISMATCH", l, e.h, "BAD", "digest incomplete", "", "", 1, 0>>))
-     /\ (IF e.counts[4] = SumSeq([j \in 1..Len(e.sigs) |-> e.sigs[j].n], 1) THEN TRUE ELSE PrintT(<<"MISMATCH", l, e.h, "BAD", "digest panic count", "", "", 1, 0>>))
-     /\ \A j \in 1..Len(e.sigs) :
-          PrintT(<<"MISMATCH", l, e.h, PanicKind(e), KnownPanic(e.h, dummy, e.sigs[j].fn, e.sigs[j].kind), e.sigs[j].fn, e.sigs[j].kind, e.sigs[j].n, j>>)
-     /\ (IF e.counts[5] = 0 THEN TRUE ELSE PrintT(<<"MISMATCH", l, e.h, "HANG", "", "", "", e.counts[5], 0>>))
+      total == IF Len(e.alpha) = 0 THEN Pow256(e.free) ELSE Len(e.alpha) * Len(e.alpha)
+  IN (IF SumSeq(e.counts, 1) = total /\ e.free \in 1..3 THEN {} ELSE {M("BAD", "digest incomplete", 1, 0)})
+     \cup (IF e.counts[4] = SumSeq([j \in 1..Len(e.sigs) |-> e.sigs[j].n], 1) THEN {} ELSE {M("BAD", "digest panic count", 1, 0)})
+     \cup {M(PanicKind(e), KnownPanic(e.h, dummy, e.sigs[j].fn, e.sigs[j].kind), e.sigs[j].n, j) : j \in 1..Len(e.sigs)}
+     \cup (IF e.counts[5] = 0 THEN {} ELSE {M("HANG", "", e.counts[5], 0)})
      \* skipped inputs are only accepted for the helper with a recorded hang class
-     /\ (IF e.counts[6] = 0 \/ e.h = "LadnToModels" THEN TRUE ELSE PrintT(<<"MISMATCH", l, e.h, "BAD", "skip outside the recorded hang class", "", "", 1, 0>>))
+     \cup (IF e.counts[6] = 0 \/ e.h = "LadnToModels" THEN {} ELSE {M("BAD", "bad skip", 1, 0)})
 
-Report(e) ==
-  CASE e.h \notin AllHelpers -> PrintT(<<"MISMATCH", l, e.h, "BAD", "unknown helper", "", "", 1, 0>>)
-    [] e.op = "Call" -> CallReport(e)
-    [] e.op = "Chunk" -> ChunkReport(e)
-    [] e.op = "Digest" -> DigestReport(e)
-    [] OTHER -> PrintT(<<"MISMATCH", l, e.h, "BAD", "unknown op", "", "", 1, 0>>)
+Lines(e) ==
+  CASE e.h \notin AllHelpers -> {M("BAD", "unknown helper", 1, 0)}
+    [] e.op = "Call" -> CallLines(e)
+    [] e.op = "Chunk" -> ChunkLines(e)
+    [] e.op = "Digest" -> DigestLines(e)
+    [] OTHER -> {M("BAD", "unknown op", 1, 0)}
+Report(e) == \A t \in Lines(e) : PrintT(t)
 
 TInit == l = 1 /\ TLCSet(2, 0)
 TNext ==
